@@ -19,9 +19,13 @@ Record cfg := mk_cfg {
   fix_prefix_key : bool;   (* in-transaction prefix clears also see the state key equal to the prefix *)
   fix_child_reset : bool;  (* upsertChild clears a pending deletion of the same child key *)
   fix_child_keys : bool;   (* GetKeysWithPrefixFromChild merges state keys, upserts and deletes *)
+  fix_child_ns : bool;     (* deleted child tries are tracked apart from main keys
+                              (deletedChildTries) and hide the child's content in the state *)
+  fix_child_direct : bool; (* outside a transaction, bulk deletions in a child trie go through
+                              ClearFromChild (the child root in the parent stays up to date) *)
 }.
-Definition cfg_pinned : cfg := mk_cfg false false false.
-Definition cfg_fixed : cfg := mk_cfg true true true.
+Definition cfg_pinned : cfg := mk_cfg false false false false false.
+Definition cfg_fixed : cfg := mk_cfg true true true true true.
 
 (* ------------------------------------------------------------------ storageDiff *)
 
@@ -29,8 +33,8 @@ Record sdiff := mk_sdiff { ups : omap val; dels : kset }.
 Definition sd_empty : sdiff := mk_sdiff [] [].
 
 (* a storageDiff: its own maps plus childChangeSet (child diffs never have children) *)
-Record diff := mk_diff { d_main : sdiff; d_children : omap sdiff }.
-Definition d_empty : diff := mk_diff sd_empty [].
+Record diff := mk_diff { d_main : sdiff; d_children : omap sdiff; d_killed : kset }.
+Definition d_empty : diff := mk_diff sd_empty [] [].
 
 (* get: (value, deleted) *)
 Definition sd_get (d : sdiff) (k : key) : option val * bool :=
@@ -45,11 +49,18 @@ Definition sd_upsert (d : sdiff) (k : key) (v : val) : sdiff :=
 Definition sd_delete (d : sdiff) (k : key) : sdiff :=
   mk_sdiff (om_del k (ups d)) (ks_add k (dels d)).
 
-(* upsert / delete on the top-level diff; delete also drops childChangeSet[key] *)
+(* upsert / delete on the top-level diff; the pinned delete also drops childChangeSet[key] *)
 Definition d_upsert (D : diff) (k : key) (v : val) : diff :=
-  mk_diff (sd_upsert (d_main D) k v) (d_children D).
-Definition d_delete (D : diff) (k : key) : diff :=
-  mk_diff (sd_delete (d_main D) k) (om_del k (d_children D)).
+  mk_diff (sd_upsert (d_main D) k v) (d_children D) (d_killed D).
+Definition d_delete (cf : cfg) (D : diff) (k : key) : diff :=
+  mk_diff (sd_delete (d_main D) k)
+          (if fix_child_ns cf then d_children D else om_del k (d_children D)) (d_killed D).
+(* deleting a whole child trie: pinned = delete(keyToChild) in the main key namespace;
+   fixed = deleteChild *)
+Definition d_kill (cf : cfg) (D : diff) (c : key) : diff :=
+  if fix_child_ns cf
+  then mk_diff (d_main D) (om_del c (d_children D)) (ks_add c (d_killed D))
+  else d_delete cf D c.
 
 Definition child_changes (D : diff) (c : key) : sdiff :=
   match om_get c (d_children D) with Some cd => cd | None => sd_empty end.
@@ -60,10 +71,12 @@ Definition d_upsert_child (cf : cfg) (D : diff) (c k : key) (v : val) : diff :=
   let cc := child_changes D c in
   let cc' := if fix_child_reset cf then sd_upsert cc k v
              else mk_sdiff (om_put k v (ups cc)) (dels cc) in
-  mk_diff (mk_sdiff (ups (d_main D)) (om_del c (dels (d_main D)))) (om_put c cc' (d_children D)).
+  mk_diff (if fix_child_ns cf then d_main D
+           else mk_sdiff (ups (d_main D)) (om_del c (dels (d_main D))))
+          (om_put c cc' (d_children D)) (d_killed D).
 
 Definition d_delete_from_child (D : diff) (c k : key) : diff :=
-  mk_diff (d_main D) (om_put c (sd_delete (child_changes D c) k) (d_children D)).
+  mk_diff (d_main D) (om_put c (sd_delete (child_changes D c) k) (d_children D)) (d_killed D).
 
 (* the loop of clearPrefix / deleteChildLimit over the sorted keys: returns the keys passed
    to delete(), most recent first.  limit is a Go int (-1 = none: never reaches 0). *)
@@ -87,27 +100,27 @@ Definition clear_prefix_keys (d : sdiff) (prefix : key) (trieKeys : list key) (l
   let del := rev (cp_loop prefix (om_keys (ups d)) ks limit []) in
   (del, N.of_nat (length del), Nat.eqb (length del) (length ks)).
 
-Definition d_clear_prefix (D : diff) (prefix : key) (trieKeys : list key) (limit : Z)
+Definition d_clear_prefix (cf : cfg) (D : diff) (prefix : key) (trieKeys : list key) (limit : Z)
   : diff * N * bool :=
   let '(del, n, a) := clear_prefix_keys (d_main D) prefix trieKeys limit in
-  (fold_left d_delete del D, n, a).
+  (fold_left (d_delete cf) del D, n, a).
 
 Definition d_clear_prefix_in_child (D : diff) (c prefix : key) (childKeys : list key) (limit : Z)
   : diff * N * bool :=
   let cc := child_changes D c in
   let '(del, n, a) := clear_prefix_keys cc prefix childKeys limit in
-  (mk_diff (d_main D) (om_put c (fold_left sd_delete del cc) (d_children D)), n, a).
+  (mk_diff (d_main D) (om_put c (fold_left sd_delete del cc) (d_children D)) (d_killed D), n, a).
 
-Definition d_delete_child_limit (D : diff) (c : key) (cur : list key) (limit : Z)
+Definition d_delete_child_limit (cf : cfg) (D : diff) (c : key) (cur : list key) (limit : Z)
   : diff * N * bool :=
   let cc := child_changes D c in
   if (limit =? -1)%Z
-  then (d_delete D c, N.of_nat (length (ups cc) + length cur), true)
+  then (d_kill cf D c, N.of_nat (length (ups cc) + length cur), true)
   else
     let newKeys := om_keys (ups cc) in
     let all := kmerge cur newKeys in
     let del := rev (cp_loop [] newKeys all limit []) in
-    (mk_diff (d_main D) (om_put c (fold_left sd_delete del cc) (d_children D)),
+    (mk_diff (d_main D) (om_put c (fold_left sd_delete del cc) (d_children D)) (d_killed D),
      N.of_nat (length del), Nat.eqb (length del) (length all)).
 
 (* ------------------------------------------------------------------ backing trie *)
@@ -143,6 +156,9 @@ Definition bk_clear_from_child (b : backing) (c k : key) : option backing :=
     | m' => Some (mk_backing (bk_main b) (om_put c m' (bk_children b)) (om_del c (bk_stale b)))
     end
   end.
+
+Definition bk_clear_list (b : backing) (c : key) (ks : list key) : backing :=
+  fold_left (fun b k => match bk_clear_from_child b c k with Some b' => b' | None => b end) ks b.
 
 (* mutation through the child trie object only (no SetChild): the registered root goes stale *)
 Definition bk_set_child_direct (b : backing) (c : key) (m' : omap val) (changed : bool) : backing :=
@@ -192,13 +208,24 @@ Definition apply_child (b : backing) (c : key) (cd : sdiff) : backing :=
   fold_left (fun b k => match bk_clear_from_child b c k with Some b' => b' | None => b end)
             (om_keys (dels cd)) b1.
 
-Definition apply_diff (D : diff) (b : backing) : backing :=
-  let b1 := fold_left (fun b kv => bk_put b (fst kv) (snd kv)) (ups (d_main D)) b in
+Definition apply_diff (cf : cfg) (D : diff) (b : backing) : backing :=
+  let b0 := fold_left bk_delete_child (om_keys (d_killed D)) b in
+  let b1 := fold_left (fun b kv => bk_put b (fst kv) (snd kv)) (ups (d_main D)) b0 in
   let b2 := fold_left (fun b ccd => apply_child b (fst ccd) (snd ccd)) (d_children D) b1 in
-  fold_left (fun b k => match bk_get_child b k with
-                        | Some _ => bk_delete_child b k
-                        | None => bk_del b k
-                        end) (om_keys (dels (d_main D))) b2.
+  fold_left (fun b k => if fix_child_ns cf then bk_del b k
+                        else match bk_get_child b k with
+                             | Some _ => bk_delete_child b k
+                             | None => bk_del b k
+                             end) (om_keys (dels (d_main D))) b2.
+
+(* the child trie below the current transaction: gone once the transaction deleted it *)
+Definition child_on_state (cf : cfg) (D : diff) (b : backing) (c : key) : option (omap val) :=
+  if fix_child_ns cf && ks_mem c (d_killed D) then None else bk_get_child b c.
+(* "we are going to delete this child": reads of it fail *)
+Definition child_gone (cf : cfg) (D : diff) (c : key) : bool :=
+  if fix_child_ns cf
+  then (match om_get c (d_children D) with None => true | Some _ => false end) && ks_mem c (d_killed D)
+  else ks_mem c (dels (d_main D)).
 
 (* ------------------------------------------------------------------ TrieState *)
 
@@ -245,7 +272,7 @@ Definition step (cf : cfg) (o : op) (s : tstate) : obs * tstate :=
   | ORollback, [] => (RPanic, s)
   | ORollback, _ :: r => (RUnit, mk_tstate b r)
   | OCommit, [] => (RPanic, s)
-  | OCommit, [D] => (RUnit, mk_tstate (apply_diff D b) [])
+  | OCommit, [D] => (RUnit, mk_tstate (apply_diff cf D b) [])
   | OCommit, D :: _ :: r => (RUnit, mk_tstate b (D :: r))
   (* ---- main storage *)
   | OPut k v, [] => (RUnit, with_state s (bk_put b k v))
@@ -258,17 +285,17 @@ Definition step (cf : cfg) (o : op) (s : tstate) : obs * tstate :=
     | (None, false) => (RVal (om_get k (bk_main b)), s)
     end
   | ODel k, [] => (RUnit, with_state s (bk_del b k))
-  | ODel k, D :: _ => (RUnit, with_top s (d_delete D k))
+  | ODel k, D :: _ => (RUnit, with_top s (d_delete cf D k))
   | OClearPrefix p, [] =>
     (RUnit, with_state s (mk_backing (trie_clear_prefix (bk_main b) p) (bk_children b) (bk_stale b)))
   | OClearPrefix p, D :: _ =>
-    let '(D', _, _) := d_clear_prefix D p (state_keys_with_prefix cf (bk_main b) p) (-1)%Z in
+    let '(D', _, _) := d_clear_prefix cf D p (state_keys_with_prefix cf (bk_main b) p) (-1)%Z in
     (RUnit, with_top s D')
   | OClearPrefixLimit p n, [] =>
     let '(m', d, a) := trie_clear_prefix_limit (bk_main b) p n in
     (RCount d a, with_state s (mk_backing m' (bk_children b) (bk_stale b)))
   | OClearPrefixLimit p n, D :: _ =>
-    let '(D', d, a) := d_clear_prefix D p (state_keys_with_prefix cf (bk_main b) p) (Z.of_N n) in
+    let '(D', d, a) := d_clear_prefix cf D p (state_keys_with_prefix cf (bk_main b) p) (Z.of_N n) in
     (RCount d a, with_top s D')
   | ONext k, [] => (RVal (om_next k (bk_main b)), s)
   | ONext k, D :: _ =>
@@ -289,15 +316,19 @@ Definition step (cf : cfg) (o : op) (s : tstate) : obs * tstate :=
     match txs with
     | [] => (from_state, s)
     | D :: _ =>
-      match om_get c (d_children D) with
-      | None => (from_state, s)
-      | Some cd =>
-        match sd_get cd k with
-        | (Some v, _) => (RVal (Some v), s)
-        | (None, true) => (RVal None, s)
-        | (None, false) => (from_state, s)
+      if fix_child_ns cf && child_gone cf D c then (RErr, s)
+      else
+        let killed := fix_child_ns cf && ks_mem c (d_killed D) in
+        let fallthrough := if killed then RVal None else from_state in
+        match om_get c (d_children D) with
+        | None => (fallthrough, s)
+        | Some cd =>
+          match sd_get cd k with
+          | (Some v, _) => (RVal (Some v), s)
+          | (None, true) => (RVal None, s)
+          | (None, false) => (fallthrough, s)
+          end
         end
-      end
     end
   | OCDel c k, [] =>
     match bk_clear_from_child b c k with
@@ -309,11 +340,14 @@ Definition step (cf : cfg) (o : op) (s : tstate) : obs * tstate :=
     match bk_get_child b c with
     | None => (RErr, s)
     | Some m =>
-      let m' := trie_clear_prefix m p in
-      (RUnit, with_state s (bk_set_child_direct b c m' (negb (Nat.eqb (length m') (length m)))))
+      if fix_child_direct cf
+      then (RUnit, with_state s (bk_clear_list b c (keys_with_prefix p (om_keys m))))
+      else
+        let m' := trie_clear_prefix m p in
+        (RUnit, with_state s (bk_set_child_direct b c m' (negb (Nat.eqb (length m') (length m)))))
     end
   | OCClearPrefix c p, D :: _ =>
-    let ks := match bk_get_child b c with
+    let ks := match child_on_state cf D b c with
               | None => []
               | Some m => state_keys_with_prefix cf m p
               end in
@@ -323,11 +357,18 @@ Definition step (cf : cfg) (o : op) (s : tstate) : obs * tstate :=
     match bk_get_child b c with
     | None => (RErr, s)
     | Some m =>
-      let '(m', d, a) := trie_clear_prefix_limit m p n in
-      (RCount d a, with_state s (bk_set_child_direct b c m' (negb (d =? 0))))
+      if fix_child_direct cf
+      then
+        let ks := keys_with_prefix p (om_keys m) in
+        let del := firstn (N.to_nat n) ks in
+        (RCount (N.of_nat (length del)) (Nat.eqb (length del) (length ks)),
+         with_state s (bk_clear_list b c del))
+      else
+        let '(m', d, a) := trie_clear_prefix_limit m p n in
+        (RCount d a, with_state s (bk_set_child_direct b c m' (negb (d =? 0))))
     end
   | OCClearPrefixLimit c p n, D :: _ =>
-    match bk_get_child b c with
+    match child_on_state cf D b c with
     | None =>
       let '(D', d, a) := d_clear_prefix_in_child D c p [] (-1)%Z in
       (RCount d a, with_top s D')
@@ -343,19 +384,19 @@ Definition step (cf : cfg) (o : op) (s : tstate) : obs * tstate :=
     match txs with
     | [] => (from_state, s)
     | D :: _ =>
-      if ks_mem c (dels (d_main D)) then (RErr, s)
+      if child_gone cf D c then (RErr, s)
       else match om_get c (d_children D) with
            | None => (from_state, s)
            | Some cd =>
              let pending := om_next k (ups cd) in
-             match bk_get_child b c with
+             match child_on_state cf D b c with
              | None => (RVal pending, s)
              | Some m => (RVal (merge_next pending (next_not_deleted k m (dels cd))), s)
              end
            end
     end
   | OKill c, [] => (RUnit, with_state s (bk_delete_child b c))
-  | OKill c, D :: _ => (RUnit, with_top s (d_delete D c))
+  | OKill c, D :: _ => (RUnit, with_top s (d_kill cf D c))
   | OKillLimit c lim, [] =>
     match bk_get_child b c with
     | None => (RErr, s)
@@ -364,19 +405,25 @@ Definition step (cf : cfg) (o : op) (s : tstate) : obs * tstate :=
       match lim with
       | None => (RCount qty true, with_state s (bk_delete_child b c))
       | Some n =>
-        (* deletes sorted keys until deleted == limit (so limit 0 deletes everything) *)
-        let del := if n =? 0 then om_keys m else firstn (N.to_nat n) (om_keys m) in
-        let d := N.of_nat (length del) in
-        (RCount d (d =? qty),
-         with_state s (bk_set_child_direct b c (om_del_list del m) (negb (d =? 0))))
+        if fix_child_direct cf
+        then
+          let del := firstn (N.to_nat n) (om_keys m) in
+          let d := N.of_nat (length del) in
+          (RCount d (d =? qty), with_state s (bk_clear_list b c del))
+        else
+          (* deletes sorted keys until deleted == limit (so limit 0 deletes everything) *)
+          let del := if n =? 0 then om_keys m else firstn (N.to_nat n) (om_keys m) in
+          let d := N.of_nat (length del) in
+          (RCount d (d =? qty),
+           with_state s (bk_set_child_direct b c (om_del_list del m) (negb (d =? 0))))
       end
     end
   | OKillLimit c lim, D :: _ =>
-    match bk_get_child b c, om_get c (d_children D) with
+    match child_on_state cf D b c, om_get c (d_children D) with
     | None, None => (RErr, s)
     | mo, _ =>
       let cur := match mo with Some m => om_keys m | None => [] end in
-      let '(D', d, a) := d_delete_child_limit D c cur (lim_z lim) in
+      let '(D', d, a) := d_delete_child_limit cf D c cur (lim_z lim) in
       (RCount d a, with_top s D')
     end
   | OCKeys c p, txs =>
@@ -387,16 +434,16 @@ Definition step (cf : cfg) (o : op) (s : tstate) : obs * tstate :=
     match txs with
     | [] => (from_state, s)
     | D :: _ =>
-      if ks_mem c (dels (d_main D)) then (RErr, s)
+      if child_gone cf D c then (RErr, s)
       else match om_get c (d_children D) with
            | None => (from_state, s)
            | Some cd =>
              if fix_child_keys cf then
-               let st := match bk_get_child b c with Some m => m | None => [] end in
+               let st := match child_on_state cf D b c with Some m => m | None => [] end in
                let live := filter (fun k => negb (ks_mem k (dels cd))) (om_keys st) in
                let all := om_keys (fold_left (fun (acc : kset) k => ks_add k acc)
                                              (live ++ om_keys (ups cd)) []) in
-               match bk_get_child b c, all with
+               match child_on_state cf D b c, all with
                | None, [] => (RErr, s)
                | _, _ => (RKeys (keys_with_prefix p all), s)
                end
